@@ -83,6 +83,8 @@ class Field:
             return r
         if isinstance(x, Add):
             return sum(self.num(a) for a in x.args) % p
+        if x.is_infinite or x is S.NaN:
+            raise ModelUnusable(f"{x!r} in the input (division by zero)")
         raise TypeError(f"can not map number {x!r} ({type(x)}) to F_p")
 
     def pow_arr(self, a, k):
